@@ -14,20 +14,32 @@ Definition mB (m : meas) : nat := fst (fst m).
 Definition mR (m : meas) : nat := snd (fst m).
 Definition mC (m : meas) : nat := snd m.
 
+(* what is read off one cell *)
+Record c18_cellobs := mkCO18 {
+  co_text  : list N;          (* String() *)
+  co_lines : list (list N);   (* Lines() *)
+  co_h     : Z;               (* Height() *)
+  co_w     : Z;               (* TerminalCellWidth() *)
+  co_lw    : list nat         (* length.StringCells of every line of String() *)
+}.
+
 Record c18_obs := mkObs18 {
   o_lines  : list (list N);   (* length.Lines(s) *)
   o_lmeas  : list meas;       (* StringBytes/Runes/Cells of every such line *)
   o_whole  : meas;            (* the same of s itself *)
   o_long   : meas;            (* LongestLineBytes/Runes/Cells(s) *)
-  o_ctext  : list N;          (* NewCell(item).String() *)
-  o_clines : list (list N);   (* .Lines() *)
-  o_ch     : Z;               (* .Height() *)
-  o_cw     : Z                (* .TerminalCellWidth() *)
+  o_cell   : c18_cellobs;     (* the cell right after NewCell / AddRowItems *)
+  o_steps  : list c18_cellobs;(* the same cell after every "item's text changed; Update()" *)
+  o_render : list N;          (* i_rmode <> 0: a one-cell table holding the item, rendered by texttable (ascii-simple) *)
+  o_render_last : list N      (* kind 5: the table that holds the cell, rendered after the last step *)
 }.
 
 Record c18_in := mkIn18 {
   i_s    : list N;
-  i_kind : nat;               (* how the cell's item carries s: 0 string, 1 Stringer, 2 error, 3 GoStringer, 4 nested Cell of the string *)
+  i_kind : nat;               (* how the cell's item carries s: 0 string, 1 Stringer, 2 error, 3 GoStringer,
+                                 4 nested Cell of the string, 5 Stringer in a cell that lives in a table *)
+  i_next : list (list N);     (* the texts the item is changed to, one Update() after each *)
+  i_rmode : nat;              (* render probe: 0 none, 1 as the only body cell, 2 as the only header cell *)
   i_seg  : list (list N * list (list Z));
   i_rw   : list (Z * nat);
   i_cw   : list (list Z * nat)   (* runewidth.StringWidth of every cluster on its own *)
@@ -38,6 +50,49 @@ Definition meas_eqb (a b : meas) : bool :=
 Definition lines_eqb := list_eqb bytes_eqb.
 
 Definition meas_bounds (m : meas) : bool := (mR m <=? mB m) && (mC m <=? 2 * mR m).
+
+(* a string item and a nested Cell cannot change; the objects can *)
+Definition c18_mutable (kind : nat) : bool :=
+  match kind with 0 | 4 => false | _ => true end.
+
+(* the cell clause on one observation of a cell whose text must be [t]:
+   Lines() are the lines of String(), Height() is their number,
+   TerminalCellWidth() is the widest of them *)
+Definition cellobs_ok (t : list N) (o : c18_cellobs) : bool :=
+  bytes_eqb (co_text o) t
+  && lines_eqb (co_lines o) (spec_lines (co_text o))
+  && Z.eqb (co_h o) (Zlen (co_lines o))
+  && (length (co_lw o) =? length (co_lines o))
+  && Z.eqb (co_w o) (Z.of_nat (list_max (co_lw o))).
+
+Fixpoint steps_ok (kind : nat) (s : list N) (nexts : list (list N)) (obs : list c18_cellobs) : bool :=
+  match nexts, obs with
+  | [], [] => true
+  | t :: nexts', o :: obs' => cellobs_ok (if c18_mutable kind then t else s) o && steps_ok kind s nexts' obs'
+  | _, _ => false
+  end.
+
+(* ---- the text renderer on a one-cell table, ascii-simple decoration: what
+   "the layout pass and the emit pass agree" looks like from outside.  With
+   w = the widest line, every rule is + - ... - + over w+2 dashes and every
+   content line is | SP line padding SP | with padding = w - StringCells(line);
+   a cell without lines still gets one (blank) content line. *)
+Definition r_rule (w : nat) : list N := [43%N] ++ repeat 45%N (w + 2) ++ [43%N; LF].
+Definition r_content (w : nat) (p : list N * nat) : list N :=
+  [124%N; SP] ++ fst p ++ repeat SP (w - snd p) ++ [SP; 124%N; LF].
+Definition render_expected (mode : nat) (ls : list (list N)) (lw : list nat) : list N :=
+  let w := list_max lw in
+  let body := match combine ls lw with
+              | [] => r_content w ([], 0)
+              | ps => flat_map (r_content w) ps
+              end in
+  match mode with
+  | 2 => r_rule w ++ body ++ r_rule w ++ r_rule w     (* header top, header lines, header/body rule, bottom *)
+  | _ => r_rule w ++ body ++ r_rule w                 (* body top, lines, bottom *)
+  end.
+
+Definition last_text (i : c18_in) : list N :=
+  if c18_mutable (i_kind i) then last (i_next i) (i_s i) else i_s i.
 
 (* ---- the property, judged on the implementation's own numbers *)
 Definition C18_ok (i : c18_in) (ob : res c18_obs) : bool :=
@@ -53,23 +108,46 @@ Definition C18_ok (i : c18_in) (ob : res c18_obs) : bool :=
       && forallb meas_bounds (o_whole o :: o_lmeas o)
       (* longest = maximum of the per-line measure *)
       && meas_eqb (o_long o) (list_max (map mB (o_lmeas o)), list_max (map mR (o_lmeas o)), list_max (map mC (o_lmeas o)))
-      (* the cell: text s, its lines, height = number of lines, width = widest line *)
-      && bytes_eqb (o_ctext o) s
-      && lines_eqb (o_clines o) (spec_lines (o_ctext o))
-      && Z.eqb (o_ch o) (Zlen (o_clines o))
-      && Z.eqb (o_cw o) (Z.of_nat (list_max (map mC (o_lmeas o))))
+      (* the cell, fresh and after every Update *)
+      && cellobs_ok s (o_cell o)
+      && list_eqb Nat.eqb (co_lw (o_cell o)) (map mC (o_lmeas o))
+      && steps_ok (i_kind i) s (i_next i) (o_steps o)
+      (* the text renderer lays the cell out by exactly these numbers *)
+      && match i_rmode i with
+         | 0 => true
+         | m => bytes_eqb (o_render o) (render_expected m (spec_lines s) (map mC (o_lmeas o)))
+         end
+      && match i_kind i with
+         | 5 => let lo := last (o_steps o) (o_cell o) in
+                bytes_eqb (o_render_last o) (render_expected 1 (spec_lines (last_text i)) (co_lw lo))
+         | _ => true
+         end
   | Err => false
   | Panic => false
   end.
 
 (* ---- the model, run with the shipped oracles *)
-Definition c18_env (i : c18_in) : env :=
-  fun _ => match i_kind i with
-           | 1 => mkObj (Some (i_s i)) None None None None [] None
-           | 2 => mkObj None None (Some (i_s i)) None None [] None
-           | 3 => mkObj None (Some (i_s i)) None None None [] None
+Definition c18_env_for (kind : nat) (t : list N) : env :=
+  fun _ => match kind with
+           | 1 | 5 => mkObj (Some t) None None None None [] None
+           | 2 => mkObj None None (Some t) None None [] None
+           | 3 => mkObj None (Some t) None None None [] None
            | _ => mkObj None None None None None [] None
            end.
+
+Definition cellobs_of (W : list N -> nat) (c : cell) : res c18_cellobs :=
+  bind (cell_lines c) (fun cl =>
+  bind (layout_nlines c) (fun _ =>
+  Ok (mkCO18 (cell_text c) cl (cell_height c) (cell_width c) (map W cl)))).
+
+Fixpoint steps_model (W : list N -> nat) (kind : nat) (c : cell) (nexts : list (list N)) : res (list c18_cellobs) :=
+  match nexts with
+  | [] => Ok []
+  | t :: rest =>
+      bind (update_r W (c18_env_for kind t) c) (fun c' =>
+      bind (cellobs_of W c') (fun o =>
+      bind (steps_model W kind c' rest) (fun os => Ok (o :: os))))
+  end.
 
 Definition c18_run (i : c18_in) : res c18_obs :=
   let s := i_s i in
@@ -77,7 +155,7 @@ Definition c18_run (i : c18_in) : res c18_obs :=
   let rw := rw_of (i_rw i) in
   let W := string_cells seg rw in
   let ms := fun l => (string_bytes l, string_runes l, W l) in
-  let e := c18_env i in
+  let e := c18_env_for (i_kind i) s in
   let it := match i_kind i with
             | 0 => IString s
             | 4 => ICell (new_cell W e (IString s))
@@ -88,33 +166,48 @@ Definition c18_run (i : c18_in) : res c18_obs :=
   bind (longest_line_runes s) (fun lr =>
   bind (longest_line_cells seg rw s) (fun lc =>
   bind (new_cell_r W e it) (fun c =>
-  bind (cell_lines c) (fun cl =>
-  bind (layout_nlines c) (fun _ =>
-  Ok (mkObs18 ls (map ms ls) (ms s) (lb, lr, lc) (cell_text c) cl (cell_height c) (cell_width c))))))))).
+  bind (cellobs_of W c) (fun co =>
+  bind (steps_model W (i_kind i) c (i_next i)) (fun st =>
+  Ok (mkObs18 ls (map ms ls) (ms s) (lb, lr, lc) co st [] [])))))))).
 
+Definition cellobs_eqb (a b : c18_cellobs) : bool :=
+  bytes_eqb (co_text a) (co_text b)
+  && lines_eqb (co_lines a) (co_lines b)
+  && Z.eqb (co_h a) (co_h b)
+  && Z.eqb (co_w a) (co_w b)
+  && list_eqb Nat.eqb (co_lw a) (co_lw b).
+
+(* the rendered bytes are judged by C18_ok only (the text renderer's model belongs to C03/C04) *)
 Definition obs18_eqb (a b : c18_obs) : bool :=
   lines_eqb (o_lines a) (o_lines b)
   && list_eqb meas_eqb (o_lmeas a) (o_lmeas b)
   && meas_eqb (o_whole a) (o_whole b)
   && meas_eqb (o_long a) (o_long b)
-  && bytes_eqb (o_ctext a) (o_ctext b)
-  && lines_eqb (o_clines a) (o_clines b)
-  && Z.eqb (o_ch a) (o_ch b)
-  && Z.eqb (o_cw a) (o_cw b).
+  && cellobs_eqb (o_cell a) (o_cell b)
+  && list_eqb cellobs_eqb (o_steps a) (o_steps b).
+
+(* every string that gets measured: s, the texts it is changed to, and all their lines *)
+Definition c18_strings (i : c18_in) : list (list N) :=
+  flat_map (fun t => t :: spec_lines t) (i_s i :: i_next i).
 
 (* the three assumptions of c18_cells_le_2runes hold for the real library's
-   data on this string and on each of its lines *)
+   data on every one of them *)
 Definition c18_oracle_ok (i : c18_in) : bool :=
-  forallb (oracle_okb (seg_of (i_seg i)) (rw_of (i_rw i))) (i_s i :: spec_lines (i_s i))
+  forallb (oracle_okb (seg_of (i_seg i)) (rw_of (i_rw i))) (c18_strings i)
   (* the model's cluster measure is the library's, cluster by cluster *)
   && forallb (fun p => cluster_width (rw_of (i_rw i)) (fst p) =? snd p) (i_cw i)
   && forallb (fun k => forallb (fun cl => existsb (fun p => list_eqb Z.eqb (fst p) cl) (i_cw i)) (seg_of (i_seg i) k))
-             (i_s i :: spec_lines (i_s i)).
+             (c18_strings i).
 
 Definition C18_case (c : c18_in * res c18_obs) : N :=
   let '(i, ob) := c in
   code (res_eqb obs18_eqb (c18_run i) ob && c18_oracle_ok i) (C18_ok i ob).
 
-(* for replays: what the model computes, and whether the oracle assumptions held *)
-Definition C18_model (c : c18_in * res c18_obs) : res c18_obs * bool :=
-  (c18_run (fst c), c18_oracle_ok (fst c)).
+(* for replays: what the model computes, whether the oracle assumptions held,
+   and the rendering the probe expects *)
+Definition C18_model (c : c18_in * res c18_obs) :=
+  (c18_run (fst c), c18_oracle_ok (fst c),
+   match snd c with
+   | Ok o => render_expected (i_rmode (fst c)) (spec_lines (i_s (fst c))) (map mC (o_lmeas o))
+   | _ => []
+   end).
